@@ -218,8 +218,41 @@ def run(tier: str) -> int:
     # 3. seeded changes
     if tier == "thorough":
         failures += seeded()
+        # 4. the converse: behaviour-preserving changes must stay quiet
+        failures += keepers()
     print("selftest:", "OK" if failures == 0 else f"{failures} failure(s)")
     return 0 if failures == 0 else 2
+
+
+def keepers(only=None) -> int:
+    """Apply each behaviour-PRESERVING change (keepers/<id>/patch.diff) to a scratch worktree and run the checks
+    recorded in its meta.json: none may raise an alarm."""
+    failures = 0
+    for mp in sorted(glob.glob(os.path.join(core.VERIF, "keepers", "*", "meta.json"))):
+        d = os.path.dirname(mp)
+        meta = json.load(open(mp))
+        kid = os.path.basename(d)
+        if only and kid not in only:
+            continue
+        wt = tempfile.mkdtemp(prefix=f"verif-keeper-{kid}-")
+        try:
+            subprocess.run(["git", "-C", core.REPO, "worktree", "add", "-q", "--detach", wt, "HEAD"], check=True, capture_output=True)
+            ap = subprocess.run(["git", "-C", wt, "apply", os.path.join(d, "patch.diff")], capture_output=True, text=True)
+            if ap.returncode != 0:
+                print(f"  KEEPER {kid}: patch does not apply: {ap.stderr.strip()[:200]}")
+                failures += 1
+                continue
+            for prop in meta["checks_run"]:
+                env = dict(os.environ, VERIF_REPO=wt, VERIF_EVIDENCE_DIR=os.path.join(wt, "_evidence"))
+                p = subprocess.run([os.path.join(core.VERIF, "check"), prop, "--tier", "quick"], capture_output=True, text=True, env=env,
+                                   cwd=core.VERIF)
+                print(f"  KEEPER {kid} [{prop}]: {'quiet' if p.returncode == 0 else 'ALARM (rc=%d)' % p.returncode}")
+                if p.returncode != 0:
+                    failures += 1
+        finally:
+            subprocess.run(["git", "-C", core.REPO, "worktree", "remove", "--force", wt], capture_output=True)
+            shutil.rmtree(wt, ignore_errors=True)
+    return failures
 
 
 def seeded(only=None, all_checks: bool = False) -> int:
